@@ -49,4 +49,8 @@ def main():
 
 
 if __name__ == '__main__':
-    sys.exit(main())
+    code = main()
+    sys.stdout.flush()
+    sys.stderr.flush()
+    # skip object finalisers: library objects print from __del__ (ReservedResources) when the interpreter shuts down
+    os._exit(code)
